@@ -228,6 +228,18 @@ def run(tier, seed, replay=None):
     raw2.source, raw2.kind, raw2.bindings, raw2.type_name = INCLUDE_QML, "include-hazard", [], "MyType"
     raw2.drop_rejected = lambda diags: []
     docs.append(raw2)
+    # the include collector walks per-object hash maps: the same hazard document is translated several times so that every
+    # iteration order is seen (each translation creates its maps with fresh hash seeds)
+    for variant in range(3):
+        uses = [("ival", "Math.max(sp.value, %d)" % variant), ("dval", "(sp.value as double) %% 2.5"), ("sval", "{ console.log(\"u\"); return le.text }")]
+        body = "\n".join("        %s: %s" % u for u in (uses[variant:] + uses[:variant])[:2 + variant % 2])
+        qml = ("import qmluic.QtWidgets\nQWidget {\n    id: root\n    QSpinBox { id: sp }\n    QCheckBox { id: cb }\n    QLineEdit { id: le }\n"
+               "    VfWidget {\n        id: g3\n        font.bold: cb.checked\n        font.pointSize: 9\n%s\n    }\n}\n" % body)
+        for rep in range(6):
+            rw = Raw()
+            rw.source, rw.kind, rw.bindings, rw.type_name = qml, "include-after-gadget-map", [], "MyType"
+            rw.drop_rejected = lambda diags: []
+            docs.append(rw)
     raw3 = Raw()
     raw3.source, raw3.kind, raw3.bindings, raw3.type_name = GADGET_PARAM_QML, "value-class-callback-parameters", [], "MyType"
     raw3.drop_rejected = lambda diags: []
